@@ -16,6 +16,7 @@ static char line[1 << 16];
 int main(void)
 {
   printf("CONST MCL=%d MAS=%d MHCL=%d\n", MAX_CODE_LENGTH, MAX_ALPHA_SIZE, MAX_HUFF_CODE_LENGTH);
+  fflush(stdout);
   while (fgets(line, sizeof line, stdin)) {
     static uint32_t freq[MAX_ALPHA_SIZE + 1], code[MAX_ALPHA_SIZE + 1];
     static uint8_t length[MAX_ALPHA_SIZE + 1];
@@ -54,6 +55,7 @@ int main(void)
       for (k = 0; k <= MAX_CODE_LENGTH; k++) printf("%s%u", k ? "," : "", (unsigned)tree[d][k]);
     }
     putchar('\n');
+    fflush(stdout);   /* keep the lines already produced if a later case aborts */
   }
   return 0;
 }
